@@ -335,9 +335,10 @@ Section Protocol.
 
   (** engine "find all" primitives as goja drives them *)
   (* regexp2Wrapper.findAllSubmatchIndexUTF16 / ...Unicode + regexp2 FindNextMatch: after an empty
-     match the scan position moves one rune on (nil at the end of input).  [ignore_limit]: the
-     ...Unicode variant never decrements limit. *)
-  Fixpoint rx2_all (fuel : nat) (pos stpos limit : Z) (ignore_limit sticky : bool) : list mres :=
+     match the scan position moves one rune on (nil at the end of input).  Both variants count
+     [limit] down (99d84e8) and the sticky filter expects the next match where the scan resumes,
+     i.e. one rune after an empty match (4fe706d). *)
+  Fixpoint rx2_all (fuel : nat) (pos stpos limit : Z) (sticky : bool) : list mres :=
     match fuel with
     | O => []
     | S f =>
@@ -347,13 +348,12 @@ Section Protocol.
              | Some m =>
                  if sticky && negb (ms m =? stpos) then []
                  else
-                   let stpos' := if sticky then me m else stpos in
+                   let next := if me m =? ms m then advance s (me m) (fu fl) else me m in
+                   let stpos' := if sticky then next else stpos in
                    let limit' := limit - 1 in
-                   if negb ignore_limit && (limit' <=? 0) then [m]
+                   if limit' <=? 0 then [m]
                    else if (me m =? ms m) && (me m =? slen s) then [m]
-                   else
-                     let next := if me m =? ms m then advance s (me m) (fu fl) else me m in
-                     m :: rx2_all f next stpos' limit' ignore_limit sticky
+                   else m :: rx2_all f next stpos' limit' sticky
              end
     end.
 
@@ -372,11 +372,14 @@ Section Protocol.
                  if accept then m :: re2_all f pos' (me m) (n - 1) else re2_all f pos' (me m) n
              end
     end.
-  (* regexpWrapper.findAllSubmatchIndex: the sticky filter over the finished list *)
+  (* regexpWrapper.findAllSubmatchIndex: the sticky filter over the finished list; after an empty
+     match the next one is expected one character further on (4fe706d) *)
   Fixpoint sticky_prefix (l : list mres) (pos : Z) : list mres :=
     match l with
     | [] => []
-    | m :: t => if ms m =? pos then m :: sticky_prefix t (me m) else []
+    | m :: t => if ms m =? pos
+                then m :: sticky_prefix t (if me m =? ms m then advance s (me m) true else me m)
+                else []
     end.
 
   Definition is_ascii (x : str) : bool := forallb (fun c => (c <? 128)%N) x.
@@ -386,9 +389,8 @@ Section Protocol.
       compiled for (RE2 when the translation succeeded) *)
   Definition find_all (e : engine) (start limit : Z) (sticky : bool) : list mres :=
     let rx2 :=
-      let ignore := negb (is_ascii s) && fu fl in
       let limit' := if limit <? 0 then slen s + 1 else limit in
-      rx2_all all_fuel start start limit' ignore sticky in
+      rx2_all all_fuel start start limit' sticky in
     match e with
     | RX2 => rx2
     | RE2 =>
@@ -397,7 +399,10 @@ Section Protocol.
           if is_ascii s then
             let l := re2_all all_fuel 0 (-1) n in if sticky then sticky_prefix l 0 else l
           else if limit =? 1 then
-            match find s 0 with Some m => [m] | None => [] end      (* sticky not consulted *)
+            match find s 0 with                                     (* sticky: must start at 0 (99d84e8) *)
+            | Some m => if sticky && negb (ms m =? 0) then [] else [m]
+            | None => []
+            end
           else if fu fl && negb (has_lone_surrogate s) then
             let l := re2_all all_fuel 0 (-1) n in if sticky then sticky_prefix l 0 else l
           else rx2
@@ -458,7 +463,8 @@ Section Protocol.
   Definition replace_fast (e : engine) (li : Z) : res * Z :=
     let index := if fg fl then 0 else (if gy then to_length li else 0) in
     let lim := if fg fl then -1 else 1 in
-    let found := find_all e index lim (fy fl) in
+    (* lastIndex > length is a failure, as in RegExpBuiltinExec (a3eeab9) *)
+    let found := if index <=? slen s then find_all e index lim (fy fl) else [] in
     let li' := if gy then (if negb (fg fl) then match last (map Some found) None with Some m => me m | None => 0 end else 0)
                else li in
     (RS (match found with [] => s | _ => assemble_fast found 0 [] end), li').
@@ -505,7 +511,8 @@ Section Protocol.
     match l with
     | [] => [Some (if last =? slen s then [] else slice s last (slen s))]
     | m :: t =>
-        if (ms m =? me m) && ((ms m =? 0) || (ms m =? slen s)) then split_fast_loop t last
+        (* an empty match at the start, at the end or right after the previous match does not split (811a68b) *)
+        if (ms m =? me m) && ((ms m =? last) || (ms m =? slen s)) then split_fast_loop t last
         else Some (if last =? ms m then [] else slice s last (ms m)) :: tl (mcaps m) ++ split_fast_loop t (me m)
     end.
   Definition split_fast (e : engine) (lim : option Z) : res :=
